@@ -157,7 +157,7 @@ package pogreb
 //@ spec func crcOK(m mem, o int) bool = le32(m, o+recSize(m, o)-4) == crc(m, o, recSize(m, o)-4)
 
 // the iterator reads the file of its segment through a reader positioned at it.offset
-//@ spec func segItInv(it *segmentIterator) bool = it != nil && it.f != nil && it.f.file != nil && it.f.file.File != nil && it.r != nil && len(it.buf) == 6 && arr(it.buf) != 0 && fidOf[it.r] == fidOf[it.f.file.File] && hPos[it.r] == int64(it.offset) && fLen[fidOf[it.r]] <= 0xffffffff && fLen[fidOf[it.r]] >= 0
+//@ spec func segItInv(it *segmentIterator) bool = it != nil && it.f != nil && it.f.file != nil && it.f.file.File != nil && it.r != nil && len(it.buf) == 6 && arr(it.buf) != 0 && fidOf[it.r] == fidOf[it.f.file.File] && hPos[it.r] == int64(it.offset) && fLen[fidOf[it.r]] <= 0xffffffff && fLen[fidOf[it.r]] >= 0 && it.f.file.size == fLen[fidOf[it.r]]
 
 //@ func (it *segmentIterator) next() (rec record, err error) [C08,C18,C19,C16]
 //@   requires inv: segItInv(it)
@@ -178,3 +178,4 @@ package pogreb
 //@   at call ChecksumIEEE@1: assert crc-range: crc(contents(data), off(data), len(data)-4) == crc(fData[fidOf[it.r]], int(old(it.offset)), recSize(fData[fidOf[it.r]], int(old(it.offset)))-4)
 //@   at alloc@1: assert [C19] record-buffer: int64(size) <= fLen[fidOf[it.r]] - int64(old(it.offset))
 //@   modifies it.offset, hPos[it.r], it.buf[*]
+
